@@ -36,7 +36,11 @@ def sxt(v, bits):
 
 
 def _key(a):
-    return a if isinstance(a, int) else ('e', a.id)
+    if isinstance(a, int):
+        return a
+    if isinstance(a, tuple):
+        return (a[0], _key(a[1]))
+    return ('e', a.id)
 
 
 def mk(op, bits, args, cl=False):
@@ -52,13 +56,40 @@ def var(name, bits):
     return mk('var:' + name, bits, ())
 
 
-CL_LIMIT = 64
+CL_LIMIT = 40
 
 
 def _clsize(x):
     if is_c(x):
         return 1
     return x.cl if x.cl else 0
+
+
+def _pairs(x):
+    """(value, guard) pairs of a constant or a 'cl' node"""
+    if is_c(x):
+        return ((x, 1),)
+    return x.args
+
+
+def mkcl(pairs, bits):
+    """canonical guarded-constant set: pairs [(value, guard)], guards mutually exclusive and exhaustive.
+    Equal values are merged, false guards dropped; returns an int when only one value remains."""
+    d = {}
+    for v, g in pairs:
+        if is_c(g) and g == 0:
+            continue
+        o = d.get(v)
+        d[v] = g if o is None else or_(o, g, 1)
+    if not d:
+        return 0  # unreachable state: any value will do
+    for v, g in d.items():
+        if is_c(g) and g == 1:
+            return v
+    if len(d) == 1:
+        return next(iter(d))
+    items = tuple(sorted(d.items()))
+    return mk('cl', bits, items, len(items))
 
 
 def ite(c, a, b, bits):
@@ -84,8 +115,17 @@ def ite(c, a, b, bits):
         if is_c(b):
             return and_(c, a, 1) if b == 0 else or_(not_(c), a, 1)
     sa, sb = _clsize(a), _clsize(b)
-    cl = sa + sb if (sa and sb and sa + sb <= CL_LIMIT) else False
-    return mk('ite', bits, (c, a, b), cl)
+    if sa and sb and bits > 1:
+        nc = not_(c)
+        r = mkcl([(v, and_(c, g, 1)) for v, g in _pairs(a)] + [(v, and_(nc, g, 1)) for v, g in _pairs(b)], bits)
+        if is_c(r) or r.cl <= CL_LIMIT:
+            return r
+    # bounded-reader pattern  ite(x > k, d, x): expand to a guarded-constant set
+    if bits <= 8 and c.op.startswith('cmp:u') and ((not is_c(b) and b.op.startswith('var:')) or (not is_c(a) and a.op.startswith('var:'))):
+        r = expand_small(mk('ite', bits, (c, a, b), False), bits, 16)
+        if r is not None:
+            return r
+    return mk('ite', bits, (c, a, b), False)
 
 
 def not_(x):
@@ -160,24 +200,17 @@ def xor_(x, y, bits):
     return mk('xor', bits, (x, y))
 
 
-def _push1(f, x):
-    """apply unary int->int function f through a const-leaf ite tree"""
+def map_cl(f, x, obits):
+    """x is a constant or guarded-constant set; apply f to the values producing an obits-wide result"""
     if is_c(x):
         return f(x)
-    c, a, b = x.args
-    return (c, _push1(f, a), _push1(f, b))
-
-
-def _rebuild(t, bits):
-    if is_c(t):
-        return t
-    c, a, b = t
-    return ite(c, _rebuild(a, bits), _rebuild(b, bits), bits)
-
-
-def map_cl(f, x, obits):
-    """x is a const-leaf ite tree; apply f to leaves producing obits-wide result"""
-    return _rebuild(_push1(f, x), obits)
+    if obits == 1:
+        r = 0
+        for v, g in x.args:
+            if f(v) & 1:
+                r = or_(r, g, 1)
+        return r
+    return mkcl([(f(v), g) for v, g in x.args], obits)
 
 
 def _cmpc(pred, x, y, bits):
@@ -202,6 +235,13 @@ def cmp_(pred, x, y, bits):
         return map_cl(lambda v: _cmpc(pred, v, y, bits), x, 1)
     if is_c(x) and not is_c(y) and y.cl:
         return map_cl(lambda v: _cmpc(pred, x, v, bits), y, 1)
+    if not is_c(x) and not is_c(y) and x.cl and y.cl and x.cl * y.cl <= 100:
+        r = 0
+        for vx, gx in x.args:
+            for vy, gy in y.args:
+                if _cmpc(pred, vx, vy, bits):
+                    r = or_(r, and_(gx, gy, 1), 1)
+        return r
     if bits == 1 and pred in ('eq', 'ne'):
         if is_c(y):
             x, y = y, x
@@ -229,6 +269,12 @@ def _binc(o, x, y, bits):
     m = mask(bits)
     if o == 'add':
         return (x + y) & m
+    if o == 'and':
+        return x & y
+    if o == 'or':
+        return x | y
+    if o == 'xor':
+        return x ^ y
     if o == 'sub':
         return (x - y) & m
     if o == 'mul':
@@ -253,6 +299,14 @@ def _binc(o, x, y, bits):
 
 
 def bin_(o, x, y, bits):
+    if bits > 1 and o in ('and', 'or', 'xor'):
+        xc, yc = _clsize(x), _clsize(y)
+        if xc and yc and not (is_c(x) and is_c(y)) and xc * yc <= 64:
+            if is_c(x):
+                return map_cl(lambda v: _binc(o, x, v, bits), y, bits)
+            if is_c(y):
+                return map_cl(lambda v: _binc(o, v, y, bits), x, bits)
+            return _cl2(o, x, y, bits)
     if o == 'and':
         return and_(x, y, bits)
     if o == 'or':
@@ -279,9 +333,8 @@ def bin_(o, x, y, bits):
             return y
         if y.cl:
             return map_cl(lambda v: _binc(o, x, v, bits), y, bits)
-    if not is_c(x) and not is_c(y) and x.cl and y.cl and x.cl * y.cl <= 16:
-        return map_cl(lambda v: v, _rebuild(_push1(lambda a: ('x', a), x), bits), bits) if False else \
-            _cl2(o, x, y, bits)
+    if not is_c(x) and not is_c(y) and x.cl and y.cl and x.cl * y.cl <= 64:
+        return _cl2(o, x, y, bits)
     if o in ('add', 'mul') and not is_c(x) and not is_c(y) and x.id > y.id:
         x, y = y, x
     # (x + c1) + c2
@@ -293,19 +346,20 @@ def bin_(o, x, y, bits):
 
 
 def _cl2(o, x, y, bits):
-    def go(a):
-        if is_c(a):
-            return map_cl(lambda v: _binc(o, a, v, bits), y, bits)
-        c, p, q = a.args
-        return ite(c, go(p), go(q), bits)
-    return go(x)
+    return mkcl([(_binc(o, vx, vy, bits), and_(gx, gy, 1)) for vx, gx in x.args for vy, gy in y.args], bits)
 
 
 def zext(x, b1, b2):
     if is_c(x):
         return x
+    if b1 == 1:
+        return ite(x, 1, 0, b2)
     if x.cl:
         return map_cl(lambda v: v, x, b2)
+    if b1 <= 8 and not x.op.startswith('var:'):
+        r = expand_small(x, b1, 16)
+        if r is not None and (is_c(r) or r.cl):
+            return map_cl(lambda v: v, r, b2)
     if x.op == 'zext':
         return mk('zext', b2, (x.args[0],))
     return mk('zext', b2, (x,))
@@ -349,9 +403,17 @@ def extract(x, hi, lo):
         return extract(x.args[0], x.args[2] + hi, x.args[2] + lo)
     if x.op == 'ite':
         c, a, b = x.args
-        if is_c(a) or is_c(b):
-            return ite(c, extract(a, hi, lo), extract(b, hi, lo), w)
+        if is_c(a) or is_c(b) or w <= 16:
+            k = (x.id, hi, lo)
+            r = _EXT.get(k)
+            if r is None:
+                r = ite(c, extract(a, hi, lo), extract(b, hi, lo), w)
+                _EXT[k] = r
+            return r
     return mk('extract', w, (x, hi, lo))
+
+
+_EXT = {}
 
 
 def concat(h, hb, l, lb):
@@ -380,7 +442,10 @@ def to_z3(x, bits=None):
         if e.z is not None:
             stack.pop()
             continue
-        pend = [a for a in e.args if isinstance(a, E) and a.z is None]
+        if e.op == 'cl':
+            pend = [g for _, g in e.args if isinstance(g, E) and g.z is None]
+        else:
+            pend = [a for a in e.args if isinstance(a, E) and a.z is None]
         if pend:
             stack.extend(pend)
             continue
@@ -399,6 +464,11 @@ def _conv(e):
         return z3.BitVec(op[4:], bits)
     if op == 'ite':
         return z3.If(_z(a[0], 1) == 1, _z(a[1], bits), _z(a[2], bits))
+    if op == 'cl':
+        r = z3.BitVecVal(a[-1][0], bits)
+        for v, g in reversed(a[:-1]):
+            r = z3.If(_z(g, 1) == 1, z3.BitVecVal(v, bits), r)
+        return r
     if op == 'not':
         return ~_z(a[0], 1)
     if op in ('and', 'or', 'xor', 'add', 'sub', 'mul', 'shl', 'lshr', 'ashr', 'udiv', 'urem', 'sdiv', 'srem'):
@@ -440,14 +510,243 @@ def leaves(x, limit=64):
         return [(1, x)]
     if not x.cl:
         return None
-    out = []
+    return [(g, v) for v, g in x.args]
 
-    def go(e, g):
-        if is_c(e):
-            out.append((g, e))
-            return
-        c, a, b = e.args
-        go(a, and_(g, c, 1))
-        go(b, and_(g, not_(c), 1))
-    go(x, 1)
+
+# ------------------------------------------------------------------ concrete evaluation / small-domain expansion
+def support(x, limit=4):
+    """set of var nodes under x (None if more than `limit`)"""
+    seen = set()
+    vs = []
+    stack = [x]
+    while stack:
+        e = stack.pop()
+        if is_c(e) or e.id in seen:
+            continue
+        seen.add(e.id)
+        if e.op.startswith('var:'):
+            vs.append(e)
+            if len(vs) > limit:
+                return None
+            continue
+        if len(seen) > 20000:
+            return None
+        for a in (e.args if e.op != 'cl' else [g for _, g in e.args]):
+            if isinstance(a, E):
+                stack.append(a)
+    return vs
+
+
+def evalc(x, env):
+    """evaluate x with var node id -> int; iterative post-order with memo"""
+    if is_c(x):
+        return x
+    memo = {}
+    stack = [x]
+    while stack:
+        e = stack[-1]
+        if e.id in memo:
+            stack.pop()
+            continue
+        if e.op == 'cl':
+            pend = [g for _, g in e.args if isinstance(g, E) and g.id not in memo]
+        else:
+            pend = [a for a in e.args if isinstance(a, E) and a.id not in memo]
+        if pend:
+            stack.extend(pend)
+            continue
+        stack.pop()
+        op, bits = e.op, e.bits
+        if op == 'cl':
+            v = e.args[-1][0]
+            for val, g in e.args:
+                if (memo[g.id] if isinstance(g, E) else g) & 1:
+                    v = val
+                    break
+            memo[e.id] = v
+            continue
+        a = [memo[t.id] if isinstance(t, E) else t for t in e.args]
+        if op.startswith('var:'):
+            v = env[e.id]
+        elif op == 'ite':
+            v = a[1] if a[0] & 1 else a[2]
+        elif op == 'not':
+            v = (~a[0]) & 1
+        elif op in ('and', 'or', 'xor'):
+            v = a[0] & a[1] if op == 'and' else (a[0] | a[1] if op == 'or' else a[0] ^ a[1])
+        elif op.startswith('cmp:'):
+            w = e.args[0].bits if isinstance(e.args[0], E) else e.args[1].bits
+            v = _cmpc(op[4:], a[0], a[1], w)
+        elif op == 'zext':
+            v = a[0]
+        elif op == 'sext':
+            v = sxt(a[0], e.args[0].bits) & mask(bits)
+        elif op == 'extract':
+            v = (a[0] >> a[2]) & mask(a[1] - a[2] + 1)
+        elif op == 'concat':
+            v = (a[0] << a[3]) | a[1]
+        else:
+            v = _binc(op, a[0], a[1], bits)
+        memo[e.id] = v
+    return memo[x.id]
+
+
+def expand_small(x, bits, maxvals=16):
+    """if x depends on at most 8 bits of input, rewrite it as a constant-leaf ite tree; else None"""
+    if is_c(x) or x.cl:
+        return x
+    if x.id in _EXP:
+        return _EXP[x.id]
+    _EXP[x.id] = None
+    r = _expand_small(x, bits, maxvals)
+    _EXP[x.id] = r
+    return r
+
+
+_EXP = {}
+
+
+def _expand_small(x, bits, maxvals):
+    vs = support(x, 2)
+    if not vs or sum(v.bits for v in vs) > 8:
+        return None
+    groups = {}
+    import itertools as _it
+    doms = [range(1 << v.bits) for v in vs]
+    for combo in _it.product(*doms):
+        r = evalc(x, {v.id: c for v, c in zip(vs, combo)})
+        groups.setdefault(r, []).append(combo)
+        if len(groups) > maxvals:
+            return None
+    items = sorted(groups.items(), key=lambda kv: len(kv[1]))
+    pairs = []
+    others = 0
+    for r, combos in items[:-1]:
+        g = 0
+        for combo in combos:
+            c = 1
+            for v, val in zip(vs, combo):
+                c = and_(c, cmp_('eq', v, val, v.bits), 1)
+            g = or_(g, c, 1)
+        pairs.append((r, g))
+        others = or_(others, g, 1)
+    pairs.append((items[-1][0], not_(others)))  # the largest group is the default
+    return mkcl(pairs, bits)
+
+
+# ------------------------------------------------------------------ value-set analysis (sound over-approximation)
+_VS = {}
+VS_LIMIT = 32
+
+
+def _submasks(m):
+    out = []
+    x = m
+    while True:
+        out.append(x)
+        if x == 0:
+            break
+        x = (x - 1) & m
     return out
+
+
+def valset(x):
+    """frozenset of all values x may take (over-approximation) or None if more than VS_LIMIT"""
+    if is_c(x):
+        return frozenset((x,))
+    r = _VS.get(x.id, 0)
+    if r != 0:
+        return r
+    stack = [x]
+    while stack:
+        e = stack[-1]
+        if e.id in _VS:
+            stack.pop()
+            continue
+        if e.op == 'cl':
+            _VS[e.id] = frozenset(v for v, _ in e.args) if len(e.args) <= VS_LIMIT else None
+            stack.pop()
+            continue
+        pend = [a for a in e.args if isinstance(a, E) and a.id not in _VS]
+        if pend:
+            stack.extend(pend)
+            continue
+        stack.pop()
+        _VS[e.id] = _vs1(e)
+    return _VS[x.id]
+
+
+def _vs1(e):
+    op, bits = e.op, e.bits
+    full = frozenset(range(1 << bits)) if (1 << bits) <= VS_LIMIT else None
+    if op.startswith('var:'):
+        return full
+    if bits == 1:
+        return frozenset((0, 1))
+    A = [(_VS[a.id] if isinstance(a, E) else frozenset((a,))) for a in e.args]
+    if op == 'ite':
+        c = e.args[0]
+        # range refinement for the pattern  ite(x > k, d, x)  /  ite(x < k, x, d)  (bounded readers)
+        neg = False
+        if isinstance(c, E) and c.op == 'not':
+            c = c.args[0]
+            neg = True
+        if isinstance(c, E) and c.op.startswith('cmp:u') and is_c(c.args[1]) and isinstance(c.args[0], E):
+            v, k, pr = c.args[0], c.args[1], c.op[4:]
+            # set of v-values on the true / false side
+            if pr in ('ugt', 'uge'):
+                lo = k + 1 if pr == 'ugt' else k
+                tside, fside = None, (frozenset(range(lo)) if lo <= VS_LIMIT else None)
+            else:
+                hi = k if pr == 'ult' else k + 1
+                tside, fside = (frozenset(range(hi)) if hi <= VS_LIMIT else None), None
+            if neg:
+                tside, fside = fside, tside
+            if e.args[1] is v and tside is not None:
+                A[1] = tside
+            if e.args[2] is v and fside is not None:
+                A[2] = fside
+        if A[1] is None or A[2] is None:
+            return full
+        u = A[1] | A[2]
+        return u if len(u) <= VS_LIMIT else full
+    if op == 'zext':
+        return A[0] if A[0] is not None else full
+    if op == 'sext':
+        if A[0] is None:
+            return full
+        b1 = e.args[0].bits
+        return frozenset(sxt(v, b1) & mask(bits) for v in A[0])
+    if op == 'extract':
+        hi, lo = e.args[1], e.args[2]
+        if A[0] is None:
+            return full
+        return frozenset((v >> lo) & mask(hi - lo + 1) for v in A[0])
+    if op == 'concat':
+        if A[0] is None or A[1] is None or len(A[0]) * len(A[1]) > VS_LIMIT:
+            return full
+        lb = e.args[3]
+        return frozenset((h << lb) | l for h in A[0] for l in A[1])
+    if op == 'and':
+        for i in (0, 1):
+            if A[i] is not None and len(A[i]) == 1 and A[1 - i] is None:
+                m = next(iter(A[i]))
+                if bin(m).count('1') <= 5:
+                    return frozenset(_submasks(m))
+    if op in ('urem',) and A[1] is not None and len(A[1]) == 1 and A[0] is None:
+        k = next(iter(A[1]))
+        if 0 < k <= VS_LIMIT:
+            return frozenset(range(k))
+    if op in ('and', 'or', 'xor', 'add', 'sub', 'mul', 'shl', 'lshr', 'ashr', 'udiv', 'urem', 'sdiv', 'srem'):
+        if A[0] is None or A[1] is None or len(A[0]) * len(A[1]) > 4 * VS_LIMIT:
+            return full
+        if op == 'and':
+            r = frozenset(a & b for a in A[0] for b in A[1])
+        elif op == 'or':
+            r = frozenset(a | b for a in A[0] for b in A[1])
+        elif op == 'xor':
+            r = frozenset(a ^ b for a in A[0] for b in A[1])
+        else:
+            r = frozenset(_binc(op, a, b, bits) for a in A[0] for b in A[1])
+        return r if len(r) <= VS_LIMIT else full
+    return full
